@@ -108,7 +108,7 @@ func genC10(mode string) func(rng *Rng, sc *Scenario) {
 				if len(ids) > 0 {
 					id := ids[rng.Intn(len(ids))]
 					isMW := id[0] != 'h' && id[0] != 'n' && id[0] != 'e'
-					rq.Over = map[string][]Action{id: dirtyScript(rng, id, isMW && rng.Chance(3, 4), sc.Options.OnPanic != "")}
+					rq.Over = map[string][]Action{id: dirtyScript(rng, id, isMW && rng.Chance(3, 4), sc.Options.OnPanic != "" || rng.Chance(1, 3))}
 					if mode == "redispatch" && rng.Chance(1, 2) && len(prev) > 1 {
 						// re-dispatch from the main handler to a path whose chain does not contain that handler (no recursion)
 						main := ""
@@ -250,7 +250,7 @@ func checkC10(sc *Scenario) *CheckOut {
 
 func init() {
 	rule := "a run is non-trivial when at least one request received a context that an earlier request had used (measured by object identity in the simulated pool)"
-	register(&Profile{Prop: "C10", Name: "sequential", Quick: 8000, Thorough: 500000, Gen: genC10("sequential"), Check: checkC10, Rule: rule, Faulty: true})
-	register(&Profile{Prop: "C10", Name: "concurrent", Quick: 5000, Thorough: 300000, Gen: genC10("concurrent"), Check: checkC10, Rule: rule, Faulty: true})
-	register(&Profile{Prop: "C10", Name: "redispatch", Quick: 3000, Thorough: 100000, Gen: genC10("redispatch"), Check: checkC10, Rule: rule, Faulty: true})
+	register(&Profile{Prop: "C10", Name: "sequential", Quick: 24000, Thorough: 500000, Gen: genC10("sequential"), Check: checkC10, Rule: rule, Faulty: true})
+	register(&Profile{Prop: "C10", Name: "concurrent", Quick: 15000, Thorough: 300000, Gen: genC10("concurrent"), Check: checkC10, Rule: rule, Faulty: true})
+	register(&Profile{Prop: "C10", Name: "redispatch", Quick: 9000, Thorough: 100000, Gen: genC10("redispatch"), Check: checkC10, Rule: rule, Faulty: true})
 }
